@@ -22,7 +22,7 @@ impl Property for C16 {
     const ID: &'static str = "C16";
 
     fn rule() -> String {
-        "proptest-generated insertion sequences mixing hints Yes/No/Detect, all compressions incl. None and all levels, with and without the dedup adder, duplicates inserted with different hints. Oracle (independent decoder on the bytes of the created pack): a content inserted with No, or into a pack created with Compression::None, lies in a cluster whose compression nibble is 0 and whose bytes are found verbatim in the file at cluster data start + blob offset; a content inserted with Yes into a compressing pack lies in a cluster whose nibble is the pack's algorithm and whose payload decompresses with that algorithm's own library to data holding the content at its blob range; Detect only round-trips. Dedup adder: two insertions return one address iff their bytes are equal, and the pack holds one content per distinct byte string. Non-trivial = both hints Yes and No present in a compressing pack, or a duplicate pair; distinct by (compression, dedup, hint pattern, lengths). 435 fixed cases: tiny compressed clusters (1..=96 zero bytes; 32 incompressible bytes + 0..=48 zeros) per algorithm, among which the compressed stream is sometimes exactly as long as the data.".into()
+        "proptest-generated insertion sequences mixing hints Yes/No/Detect, all compressions incl. None and all levels, with and without the dedup adder, duplicates inserted with different hints. Oracle (independent decoder on the bytes of the created pack): a content inserted with No, or into a pack created with Compression::None, lies in a cluster whose compression nibble is 0 and whose bytes are found verbatim in the file at cluster data start + blob offset; a content inserted with Yes into a compressing pack lies in a cluster whose nibble is the pack's algorithm and whose payload decompresses with that algorithm's own library to data holding the content at its blob range; Detect only round-trips. Dedup adder: two insertions return one address iff their bytes are equal, and the pack holds one content per distinct byte string. Non-trivial = both hints Yes and No present in a compressing pack, or a duplicate pair; distinct by (compression, dedup, hint pattern, lengths). 435 fixed cases: tiny compressed clusters (1..=96 zero bytes; 32 incompressible bytes + 0..=48 zeros) per algorithm, among which the compressed stream is sometimes exactly as long as the data. Two fixed cases: 70 000 distinct contents through the dedup adder, then twenty of them again.".into()
     }
 
     /// tiny compressed clusters whose compressed stream may be exactly as long as their data
@@ -38,6 +38,17 @@ impl Property for C16 {
             for k in 0..=48u32 {
                 v.push(Case { comp, dedup: false, contents: vec![c(32, Entropy::High, Hint::Yes, k + 500), c(k, Entropy::Zero, Hint::Yes, k), c(5, Entropy::Text, Hint::No, k + 1)] });
             }
+        }
+        // the dedup adder must remember every content it has seen, however many came in between:
+        // 70 000 distinct small contents, then the first ten and ten from the middle again
+        for (comp, hint) in [(Comp::None, Hint::No), (Comp::Lz4(1), Hint::Yes)] {
+            let mut contents: Vec<ContentSpec> = (0..70_000u32).map(|i| c(6 + i % 5, Entropy::High, hint, 1_000_000 + i)).collect();
+            for i in (0..10u16).chain(30_000..30_010) {
+                let mut d = c(0, Entropy::High, hint, 0);
+                d.dup_of = Some(((i as u32 * 65536) / 70_000 + 1) as u16);
+                contents.push(d);
+            }
+            v.push(Case { comp, dedup: true, contents });
         }
         v
     }
